@@ -54,6 +54,21 @@ def main(pid, tier, replay_path=None):
             binary = vlib.build_harness(sc, '.', instrumented_pool=True)
             scs = [json.load(open(replay_path))['scenario']] if replay_path else gen(500 if tier == 'quick' else 50000, seed) + focus(24 if tier == 'quick' else 600, seed) + witnesses()
             res, crashed = conn.run_scenarios(sc, binary, scs, 'v', procs=14, test='TestVerifServerScenarios')
+            mcov, mscs = {}, []
+            if not replay_path:
+                # Server.tla: exhaustive, then its window / simulated schedules on the real server, replayed step by step in the model
+                import serverp
+                mst, mtr = serverp.exhaustive(sc, tier)
+                mscs = serverp.scenarios(sc, tier, seed)
+                mres, mcr = conn.run_scenarios(sc, binary, mscs, 'm', procs=8, test='TestVerifServerScenarios')
+                res.update(mres)
+                crashed += mcr
+                c_, t_, _ = serverp.impl_check(sc, [(s, mres[s['id']]) for s in mscs if s['id'] in mres and not mres[s['id']]['info'].get('stuck')], 'all')
+                mcov = {'servermodel_states': mst, 'servermodel_transitions': mtr, 'servermodel_schedules_replayed': len(mres),
+                        'servermodel_plans_that_drifted': sum(1 for s in mscs if mres.get(s['id'], {}).get('info', {}).get('drift', 0) > 0),
+                        'servermodel_impl_spec_conformance': {'steps_followed': c_, 'steps_total': t_, 'all_followed': c_ == t_}}
+                if c_ != t_:
+                    vlib.log('note: Server.tla could not follow a recorded schedule (line %d of %d): the code no longer matches the implementation-shaped spec' % (c_ + 1, t_))
             if not replay_path:
                 # single-stall exploration of a sample of the scenarios: one actor held back at one schedule point
                 import random
@@ -62,7 +77,7 @@ def main(pid, tier, replay_path=None):
                 # every schedule point of the focus shapes
                 extra += conn.stall_variants([s for s in scs if s.get('focus')], res, per_scenario=400, rnd=random.Random(seed + 1), skip_actors=())
                 res2, crashed2 = conn.run_scenarios(sc, binary, extra, 'w', procs=14, test='TestVerifServerScenarios')
-                scs = scs + extra
+                scs = scs + extra + mscs
                 res.update(res2)
                 crashed += crashed2
             for s0, o in crashed:
@@ -99,6 +114,11 @@ def main(pid, tier, replay_path=None):
                    'spec_modules': vlib.spec_hashes(['ServerObs.tla', 'TraceServer.tla']),
                    'explanation': 'real TCP listener on one manual poller, accepted connections on another, clients connecting/sending/closing and Shutdown with a deadline as '
                                   'scheduler choices; traces validated by TLC against ServerObs.tla'}
+            if mcov:
+                cov.update(mcov)
+                cov['trace_validation_states'] = cov['states']
+                cov['states'], cov['transitions'] = mcov['servermodel_states'], mcov['servermodel_transitions']
+                cov['spec_modules'] = vlib.spec_hashes(['ServerObs.tla', 'TraceServer.tla', 'Server.tla', 'Conn.tla', 'TraceServerImpl.tla'])
             vlib.write_evidence(pid, tier, 'model_checking', cov, time.time() - t0, len(violations), ['TLC/SANY', 'controlled scheduler, manual pollers', 'loopback TCP as observed', 'EMFILE back-off is not exercised by this check'])
     except vlib.Inconclusive as e:
         vlib.log('INCONCLUSIVE: %s' % e)
